@@ -1,0 +1,1 @@
+//! Verification hooks: metadata (cargo feature `mmtk_verif`; add-only wrappers).
